@@ -447,6 +447,12 @@ def _corrupt(pred, run, w, limit):
         run[k]["pausedDispatch"] = True
     elif pred == "T_C05_UdsReachable":
         st["connRefused"] = True
+    elif pred == "T_C05_PausedAsCommanded":
+        k = _last_step(run, lambda r: r.get("q") and r["st"]["running"] and not r["st"]["wq"] and r.get("lastPR"))
+        if k is None:
+            return None
+        run[k]["st"]["paused"] = not run[k]["st"]["paused"]
+        return run[:k + 1]
     elif pred == "T_C05_BackoffExpires":
         k = _last_step(run, lambda r: r.get("q") and r["st"]["running"])
         if k is None:
